@@ -31,6 +31,29 @@ impl Doc {
     }
 }
 
+/// A deserializer that presents whatever `D` carries as a ONE-ELEMENT SEQUENCE, whatever the visitor asked for.
+pub struct SeqOf<D>(pub D);
+struct OneElem<D>(Option<D>);
+impl<'de, D: serde::Deserializer<'de>> serde::de::SeqAccess<'de> for OneElem<D> {
+    type Error = D::Error;
+    fn next_element_seed<S: serde::de::DeserializeSeed<'de>>(&mut self, seed: S) -> Result<Option<S::Value>, D::Error> {
+        match self.0.take() {
+            Some(d) => seed.deserialize(d).map(Some),
+            None => Ok(None),
+        }
+    }
+}
+impl<'de, D: serde::Deserializer<'de>> serde::Deserializer<'de> for SeqOf<D> {
+    type Error = D::Error;
+    fn deserialize_any<V: serde::de::Visitor<'de>>(self, visitor: V) -> Result<V::Value, D::Error> {
+        visitor.visit_seq(OneElem(Some(self.0)))
+    }
+    serde::forward_to_deserialize_any! {
+        bool i8 i16 i32 i64 i128 u8 u16 u32 u64 u128 f32 f64 char str string bytes byte_buf option unit unit_struct
+        newtype_struct seq tuple tuple_struct map struct enum identifier ignored_any
+    }
+}
+
 #[derive(Serialize, Deserialize, Debug)]
 pub struct Wrap<T> {
     pub a: u8,
@@ -39,9 +62,9 @@ pub struct Wrap<T> {
 
 pub fn ser<T: Serialize>(fmt: &str, t: &T) -> Result<Doc, String> {
     match fmt {
-        "json" | "json_reader" => serde_json::to_string(t).map(Doc::Text).map_err(|e| e.to_string()),
+        "json" | "json_reader" | "seq_json" => serde_json::to_string(t).map(Doc::Text).map_err(|e| e.to_string()),
         "msgpack_read" => rmp_serde::to_vec(t).map(Doc::Bytes).map_err(|e| e.to_string()),
-        "ron" => ron::to_string(t).map(Doc::Text).map_err(|e| e.to_string()),
+        "ron" | "ron_value" => ron::to_string(t).map(Doc::Text).map_err(|e| e.to_string()),
         "msgpack" => rmp_serde::to_vec(t).map(Doc::Bytes).map_err(|e| e.to_string()),
         "msgpack_named" => rmp_serde::to_vec_named(t).map(Doc::Bytes).map_err(|e| e.to_string()),
         _ => Err(format!("unknown format {}", fmt)),
@@ -54,6 +77,13 @@ pub fn de<T: DeserializeOwned>(fmt: &str, doc: &Doc) -> Result<T, String> {
         ("json_reader", Doc::Text(s)) => serde_json::from_reader(s.as_bytes()).map_err(|e| e.to_string()),
         ("msgpack_read", Doc::Bytes(b)) => rmp_serde::from_read(&b[..]).map_err(|e| e.to_string()),
         ("ron", Doc::Text(s)) => ron::from_str(s).map_err(|e| e.to_string()),
+        // routes on which the deserializer does NOT call visit_newtype_struct: a self-describing tree (ron::Value) and a
+        // deserializer that presents the payload as a one-element sequence (like serde::de::value::SeqDeserializer)
+        ("ron_value", Doc::Text(s)) => ron::from_str::<ron::Value>(s).map_err(|e| e.to_string()).and_then(|v| v.into_rust::<T>().map_err(|e| e.to_string())),
+        ("seq_json", Doc::Text(s)) => {
+            let mut inner = serde_json::Deserializer::from_str(s);
+            T::deserialize(SeqOf(&mut inner)).map_err(|e| e.to_string())
+        }
         ("msgpack", Doc::Bytes(b)) | ("msgpack_named", Doc::Bytes(b)) => rmp_serde::from_slice(b).map_err(|e| e.to_string()),
         _ => Err("format/document kind mismatch".to_string()),
     }
